@@ -6,7 +6,8 @@
   csnest  : block kind around every call site ("none", "if", "for", "select", "oneline")
   csform  : 0 / 1, two spellings of a call site
   blank, cmt, before, after, trail, indent, eol, pre : layout of the fault line and of the lines before it
-  prior   : 1 = a handled run-time error happens (and is resumed) before the fault
+  prior   : 1, 2 = a handled run-time error happens (and is resumed) before the fault; 3 = it happens two procedures deep and
+            the handler goes on in the module with RESUME label
 
 The text is assembled from pieces, and the character offsets (1-based, inclusive) of the offending
 statement, of its terminator and of every call-site statement are recorded while assembling - rows and
@@ -226,7 +227,7 @@ def build(case):
             for s in setup:
                 doc.add(depth, s)
             helper_calls(doc, depth)
-            if case.get("prior"):
+            if case.get("prior") in (1, 2):
                 doc.add(depth, "Q9% = 1 / Z9%" if case["prior"] == 1 else 'Q9$ = MID$("ab", Z9%)')
                 doc.add(depth, "ON ERROR GOTO 0")
             wrap(doc, depth, nest, fault_body, 1)
@@ -250,11 +251,17 @@ def build(case):
     noise(lay["pre"])
     if case.get("prior"):
         doc.add(0, "ON ERROR GOTO H9")
+    if case.get("prior") == 3:
+        # the earlier error happens two procedures deep and the handler goes on in the MODULE (RESUME label): the procedures
+        # that were running are abandoned - their call sites must not show up in what is reported later
+        doc.add(0, "ZA9")
+        doc.add(0, "L9:")
+        doc.add(0, "ON ERROR GOTO 0")
     scope_body(0, doc, 0)
     doc.add(0, "END")
     if case.get("prior"):
         doc.add(0, "H9:")
-        doc.add(0, "RESUME NEXT")
+        doc.add(0, "RESUME L9" if case["prior"] == 3 else "RESUME NEXT")
     mods = list(case.get("mods") or []) + ["plain"] * len(chain)
     for level, kind in enumerate(chain):
         noise(lay["pre"])
@@ -277,6 +284,13 @@ def build(case):
             doc.add(1, "IF N% > 199 THEN EXIT SUB" if kind == "sub" else "IF N% > 199 THEN EXIT FUNCTION")
         scope_body(level + 1, doc, 1)
         doc.add(0, "END SUB" if kind == "sub" else "END FUNCTION")
+    if case.get("prior") == 3:
+        doc.add(0, "SUB ZA9")
+        doc.add(1, "ZB9")
+        doc.add(0, "END SUB")
+        doc.add(0, "SUB ZB9")
+        doc.add(1, "Q9% = 1 / Z9%")
+        doc.add(0, "END SUB")
     # helper procedures used by some faults
     doc.add(0, "SUB ZS9 (A%)")
     doc.add(0, "END SUB")
